@@ -20,9 +20,21 @@ func JSONWideStrings() []string {
 		"\xc3\x28",               // broken 2-byte sequence
 		"\xed\xa0\x80",           // UTF-8 encoded surrogate
 		"</&>\x7f/é\U0001F600",   // HTML-sensitive, DEL, solidus, 2-byte and 4-byte runes
+		AllSpecialJSONBytes(),    // every byte/rune a JSON string writer may special-case, in one string
 		strings.Repeat("x", 253), // last length of the 1-byte TL1 length form
 		strings.Repeat("y", 254), // first length of the 4-byte TL1 length form
 	}
+}
+
+// AllSpecialJSONBytes: all C0 controls 0x00-0x1f (so every named escape \b \f \n \r \t and every \u00XX one), DEL, the
+// quote, backslash and solidus, the HTML-sensitive < > &, and U+2028 / U+2029. A writer that mangles any one of them
+// (valid JSON that reads back as something else) changes the TL1 encoding after the round trip.
+func AllSpecialJSONBytes() string {
+	var b []byte
+	for c := 0; c < 0x20; c++ {
+		b = append(b, byte(c))
+	}
+	return string(b) + "\x7f\"\\/<>&\u2028\u2029"
 }
 
 // NaN payloads in the domain.
